@@ -266,19 +266,15 @@ def check_crate(fx, rep, crate, tag):
                           'and the next receive waits for the transport although complete frames are pending (or treats a partial frame as empty)')
         if not n6:
             rep.bad('R01.6', 'anchor|%s' % tag, '-', 'no reset of the message cursor found')
-        # (a) guard on message cursor
+        # (a) guard on message cursor (any spelling of `message cursor == 0`)
         ok_a = False
-        for sw in range(body.n):
-            info = body.switch_info(sw) if not body.is_cleanup(sw) and body.term(sw)['k'] == 'switch' else None
-            if not info or info.get('kind') != 'cmp' or not body.dominates(sw, rb):
+        is_cursor = lambda tr, op: tr.get('kind') == 'place' and any(n == cursor for _, n in tr.get('fields', []))
+        for sw, zero_edge, buffered_edge, _x in C.zero_switches(body, is_cursor):
+            if not body.dominates(sw, rb):
                 continue
-            fa = info['a'].get('kind') == 'place' and any(n == cursor for _, n in info['a'].get('fields', []))
-            fb = info['b'].get('kind') == 'const' and info['b'].get('val') == 0
-            if fa and fb and info['op'] in ('Gt', 'Ne', 'Eq'):
-                buffered_edge = info['true'] if info['op'] in ('Gt', 'Ne') else info['false']
-                # from the "frames buffered" edge the read call must be unreachable
-                if rb not in body.reachable(buffered_edge):
-                    ok_a = True
+            # from the "frames buffered" edge the read call must be unreachable
+            if rb not in body.reachable(buffered_edge):
+                ok_a = True
         rep.check(ok_a, 'R01.2', '%s|a-buffered-frames-first|%s' % (fk, tag), C.where(body, rb),
                   'transport read is unreachable while the message cursor says a complete frame is buffered',
                   'transport is read although a complete frame may already be buffered (no dominating message-cursor test)')
@@ -293,24 +289,13 @@ def check_crate(fx, rep, crate, tag):
         # (b) EOF test
         ok_b = False
         eof_sites = [b for b, i, s in C.aggr_adt_sites(body, 'error::Error', 'UnexpectedEof')]
-        for sw in range(body.n):
-            if body.is_cleanup(sw) or body.term(sw)['k'] != 'switch':
-                continue
-            info = body.switch_info(sw)
-            if not info or info.get('kind') != 'cmp' or info['op'] not in ('Eq', 'Ne'):
-                continue
-            if not (info['b'].get('kind') == 'const' and info['b'].get('val') == 0):
-                continue
-            # a is derived from the read result
-            q = op_place(info['a_op'])
+        def from_read(tr, op):
+            q = op_place(op)
             if not q:
-                continue
+                return False
             locs, events = body.slice_back([q['l']])
-            from_read = any(ev[0] == 'call' and ev[1] == rb for ev in events)
-            if not from_read:
-                continue
-            zero_edge = info['true'] if info['op'] == 'Eq' else info['false']
-            nz_edge = info['false'] if info['op'] == 'Eq' else info['true']
+            return any(ev[0] == 'call' and ev[1] == rb for ev in events)
+        for sw, zero_edge, nz_edge, _x in C.zero_switches(body, from_read):
             r0 = body.reachable(zero_edge)
             if any(e in r0 for e in eof_sites) and ab not in r0 and rb not in r0 and body.dominates(sw, ab):
                 ok_b = True
